@@ -46,17 +46,17 @@ type ProgOpts struct {
 
 type progGen struct {
 	*G
-	o        ProgOpts
-	prog     *Program
-	sigs     []TmplSig
-	paramTys map[string]*Ty // a parameter name has one type program-wide (keeps data="all" well-typed)
-	nvar     int
-	ij       *Ty
-	hasIJ    bool
-	cur      *TmplSig
-	curFile  int
-	shadowed map[string]bool // params shadowed somewhere in the current template
-	valueless bool           // a valueless print was already placed
+	o         ProgOpts
+	prog      *Program
+	sigs      []TmplSig
+	paramTys  map[string]*Ty // a parameter name has one type program-wide (keeps data="all" well-typed)
+	nvar      int
+	ij        *Ty
+	hasIJ     bool
+	cur       *TmplSig
+	curFile   int
+	shadowed  map[string]bool // params shadowed somewhere in the current template
+	valueless bool            // a valueless print was already placed
 }
 
 var (
